@@ -270,6 +270,8 @@ structure MonSt where
   wire : Option (Bytes × String × Dicts)
   tdefs : List (String × (List Tag × List Tag))
   adefs : List (String × List (Bytes × List DNode))
+  /-- the abstract message of the copy taken by `fork` (none: no fork, or no claim) -/
+  side : Option Abs := none
   deriving Inhabited
 
 def MonSt.init : MonSt := { abs := some Abs.empty, parsedFrom := none, wire := none, tdefs := [], adefs := [] }
